@@ -42,6 +42,8 @@ VF_PROPS = [
     ("fontBold", "bool", "fontBold", "setFontBold", "fontBoldChanged", False),
     # Qt 6 style bindable property without notify signal: reading it in a binding is unobservable for qmluic
     ("bindonly", "int", "bindonly", "setBindonly", None, False),
+    # enum type written UNQUALIFIED, the way moc writes a type of the declaring class (QFrame::frameShape is "Shape")
+    ("mode3", "Mode", "mode3", "setMode3", "mode3Changed", False),
 ]
 
 VF_BINDABLE = {"bindonly": "bindableBindonly"}
@@ -184,7 +186,16 @@ def classes():
         "signals": [_meth("depthChanged")],
         "slots": [_meth("setDepth", args=[("int", "v")])],
     }
-    return [vf, sub, other, plot, hidden]
+    # a subclass that declares a nested enum with the SAME name as the one an inherited property uses unqualified
+    badge = {
+        "className": "VfBadge", "qualifiedClassName": "VfBadge", "object": True,
+        "superClasses": [{"access": "public", "name": "VfWidget"}],
+        "enums": [{"name": "Mode", "isClass": False, "isFlag": False, "values": ["Circle", "Square"]}],
+        "properties": [_prop("shape", "Mode", "shape", "setShape", "shapeChanged", False)],
+        "signals": [_meth("shapeChanged")],
+        "slots": [_meth("setShape", args=[("Mode", "v")])],
+    }
+    return [vf, sub, other, plot, hidden, badge]
 
 
 def write(path):
